@@ -248,43 +248,64 @@ end
 def frameGain (vol : Parameter α α) (psm : Psm α) (tic : α) : α :=
   KOps.r32 (asAmplitude (vol.interpolatedValue tw32 tic) * asAmplitude (psm.interpolatedFadeVolume tic))
 
+/-- "get info" at the top of `Track::process`: a spatial track adds its `SpatialTrackInfo`, any other
+    track passes its parent's on -/
+def trackInfo (C : Comps α S E P) (d : TrkData α S E P) (parentInfo : Info α) : Info α :=
+  match d.spatial with
+  | some p => C.spInfo p parentInfo
+  | none => parentInfo
+
+/-- "update volume parameters" and "update playback state" of `Track::process` for a chunk of `n`
+    frames (the published state follows the manager when it changes) -/
+def preUpdate (dt : α) (info : Info α) (n : Nat) (d : TrkData α S E P) : TrkData α S E P :=
+  let dtn := dt * (KOps.ofNat n : α)
+  let vol := (d.volume.update tw32 dtn info).1
+  let routes := d.routes.map (fun (r : Route α) => { r with volume := (r.volume.update tw32 dtn info).1 })
+  let u := d.psm.update dtn info
+  let d1 : TrkData α S E P := { d with volume := vol, routes := routes, psm := u.1 }
+  if u.2 then publish d1 else d1
+
+/-- `self.playback_state_manager.playback_state().is_advancing()` -/
+def advancing (d : TrkData α S E P) : Bool := d.psm.playbackState.isAdvancing
+
+/-- the spatialisation hook of `Track::process` -/
+def spatialStage (C : Comps α S E P) (dt : α) (info : Info α) (n : Nat) (sp : Option P) (buf : List (Frame α)) :
+    Option P × List (Frame α) :=
+  match sp with
+  | some p => let r := C.spStep p buf (dt * (KOps.ofNat n : α)) info; (some r.1, r.2)
+  | none => (none, buf)
+
+/-- the part of `Track::process` after the sub-track loop: sounds, effects, spatialisation, volume and
+    pause fade, sends.  `out` already holds the sum of the sub-tracks, `temp` is the scratch buffer. -/
+def postChildren (C : Comps α S E P) (dt : α) (info : Info α) (n : Nat) (d : TrkData α S E P)
+    (children pending : List (Trk α S E P)) (out temp : List (Frame α)) (sends : List (SendTrk α E)) :
+    Trk α S E P × List (Frame α) × List (SendTrk α E) :=
+  -- process sounds
+  let rs := runSounds C dt info d.sounds out temp
+  -- apply effects
+  let re := runEffects C dt info d.effects rs.2.1
+  -- apply spatialization (hook)
+  let rp := spatialStage C dt info n d.spatial re.2
+  -- apply volume fade
+  let y := gainLoop (frameGain d.volume d.psm) n 0 rp.2
+  -- output to send tracks
+  (node { d with sounds := rs.1, effects := re.1, spatial := rp.1, temp := rs.2.2 } children pending,
+    y, feedSends d.routes y sends)
+
 mutual
 /-- mirrors: Track::process.  `out` is the slice lent by the caller; returns the new track, the new
     contents of `out` and the send tracks (whose `input` buffers it feeds). -/
 def process (C : Comps α S E P) (dt : α) (parentInfo : Info α) :
     Trk α S E P → List (Frame α) → List (SendTrk α E) → Trk α S E P × List (Frame α) × List (SendTrk α E)
   | node d children pending, out, sends =>
-    let n := out.length
-    let info := match d.spatial with
-      | some p => C.spInfo p parentInfo
-      | none => parentInfo
-    let dtn := dt * (KOps.ofNat n : α)
-    -- update volume parameters
-    let vol := (d.volume.update tw32 dtn info).1
-    let routes := d.routes.map (fun (r : Route α) => { r with volume := (r.volume.update tw32 dtn info).1 })
-    -- update playback state
-    let u := d.psm.update dtn info
-    let d1 : TrkData α S E P := { d with volume := vol, routes := routes, psm := u.1 }
-    let d2 := if u.2 then publish d1 else d1
-    if !d2.psm.playbackState.isAdvancing then
+    let info := trackInfo C d parentInfo
+    let d2 := preUpdate dt info out.length d
+    if !advancing d2 then
       (node d2 children pending, fillZero out, sends)
     else
       -- process sub tracks
       let rc := processChildren C dt info children out d2.temp sends
-      -- process sounds
-      let rs := runSounds C dt info d2.sounds rc.2.1 rc.2.2.1
-      -- apply effects
-      let re := runEffects C dt info d2.effects rs.2.1
-      -- apply spatialization (hook)
-      let rp : Option P × List (Frame α) := match d2.spatial with
-        | some p => let r := C.spStep p re.2 dtn info; (some r.1, r.2)
-        | none => (none, re.2)
-      -- apply volume fade
-      let out5 := gainLoop (frameGain vol u.1) n 0 rp.2
-      -- output to send tracks
-      let sends' := feedSends routes out5 rc.2.2.2
-      (node { d2 with sounds := rs.1, effects := re.1, spatial := rp.1, temp := rs.2.2 } rc.1 pending,
-        out5, sends')
+      postChildren C dt info out.length { d2 with temp := rc.2.2.1 } rc.1 pending rc.2.1 rc.2.2.1 rc.2.2.2
 /-- the sub-track loop of `Track::process` (and of `Mixer::process`):
     `for t in children { t.process(&mut temp[..out.len()], …); out += temp; temp.fill(ZERO) }`
     — returns (children, out, temp, sends). -/
